@@ -1,11 +1,11 @@
 SPECIFICATION Spec
 CONSTANTS
   Kind = "if"
-  Ctxs = {"top", "fn"}
+  Ctxs = {"top", "mixin", "fn"}
   CondSet = {"true", "false", "null", "0"}
-  MaxConds = 4
-  ElseSet = {0, 1}
-  NCondSet = {}
+  MaxConds = 2
+  ElseSet = {2, 3}
+  NCondSet = {"true", "false", "null", "0"}
   AVals = {}
   BVals = {}
   TVals = {}
